@@ -15,7 +15,7 @@ from nv.am import AM, Malformed
 from checks import c02
 
 FACTORS = [
-    ("storage", [[], ["-fallocate-str-space-dynamic"], ["-fallocate-str-space-dynamic-on-demand"], ["-fallocate-str-space-dynamic-on-demand", "-fdelete-string-free-memory"]]),
+    ("storage", [[], ["-fallocate-str-space-dynamic"], ["-fallocate-str-space-dynamic-on-demand"], ["-fallocate-str-space-dynamic-on-demand", "-fdelete-string-free-memory"], ["-fallocate-str-space-dynamic", "-fdelete-string-free-memory"]]),
     ("u8", [[], ["-fstrings-as-u8"]]),
     ("hooks", [[], ["-fhook-per-state", "-fno-hook-global"]]),
     ("userptr", [[], ["-finclude-user-ptr"]]),
@@ -93,10 +93,13 @@ def check_program(item):
         reps = item["alphabet"][:7]
     else:
         try:
-            reps = c02.pick_reps(AM(acc.dctx), None, 5)
+            am = AM(acc.dctx)
+            reps = sorted(set(c02.pick_reps(am, None, 5)) | set(c02.boundary_reps(am, 5)))[:10]
         except Malformed:
             res["status"] = "malformed"
             return res
+        if len(reps) > 6:
+            L = min(L, 3)
     eof = "-feof-support" in argv
     needs_ind = "-fyield-support" in argv
     st, base = digests(src, argv, reps, L, eof)
